@@ -1249,7 +1249,7 @@ func gen(g *core.G) {
 	genNested(g)
 	chains, perChain, tuples := 800, 4, 5
 	if g.Thorough() {
-		chains, perChain = 20000, 2
+		chains, perChain = 40000, 2
 	}
 	for i := 0; i < chains; i++ {
 		defs := genChain(g.Rng)
